@@ -20,7 +20,7 @@ RULE = ("frames part: frame counts n of each SMPTE rate (24,25,30,50,60,30000/10
         "or within 1e-6 of one (seconds), distinct by value hash.")
 ASSUMPTIONS = [
   "reference labels come from vt/ref_timecode.py (integer SMPTE ST 12-1 drop-frame counting), self-tested at start-up",
-  "24000/1001: only from_frames/to_frames identity, monotone labels and field ranges are asserted (no SMPTE drop-frame definition)",
+  "24000/1001: from_frames/to_frames identity, monotone labels, field ranges and the exact rational offset frames / rate are asserted (there is no SMPTE drop-frame definition to compare labels with)",
   "arbitrary floats passed to SmpteTimeCode.from_seconds need only land on the containing or an adjacent frame",
 ]
 
@@ -206,6 +206,9 @@ def check_23976(case, res):
     res.fail("23976-field-range", "n=%d fields=%r" % (n, got))
   if tc.to_frames() != n:
     res.fail("23976-to_frames-inverse", "n=%d label=%r to_frames=%d" % (n, got, tc.to_frames()))
+  off = tc.to_temporal_offset()
+  if off != Fraction(n) / R23976 or not isinstance(off, Fraction):
+    res.fail("23976-temporal-offset", "n=%d label=%r offset=%r expected %r" % (n, got, off, Fraction(n) / R23976))
   nx = fields(SmpteTimeCode.from_frames(n + 1, R23976))
   if not nx > got:
     res.fail("23976-labels-not-increasing", "n=%d label=%r next=%r" % (n, got, nx))
